@@ -219,7 +219,38 @@ def s_balanced_loader(rng, nval):
     return _mk(p.prog + prog, "balanced_loader", rng, nval, edges=p.edges, chests=True)
 
 
-STRATA = [(s_inline, 4), (s_noninline, 5), (s_condvalue, 3), (s_shared_cmp, 2), (s_fanout, 2), (s_bundle_cond, 2), (s_func_configured, 2), (s_chest, 4), (s_balanced_loader, 2)]
+READABLE = ["transport-belt", "inserter", "fast-inserter"]
+
+
+def s_controlled_and_read(rng, nval):
+    """An entity that is enabled by a condition AND whose contents are read: its single connector is both the
+    sink of the condition's operand and the source of `.output`."""
+    p = P(rng)
+    item = rng.choice(ITEMS)
+    # the operand never has the type of something the entity holds: a single-connector entity always reads its own
+    # output, which no wiring can prevent
+    s = "i0"
+    p.prog.append(["input", s, p.types.fresh(), rng.randint(-5, 12)])
+    p.edges[s] = list(range(-5, 13))
+    ent = p.place(rng.choice(READABLE))
+    p.enable(ent, ["c", rng.choice(CMP_OPS), ["v", s], ["n", rng.randint(-3, 10)]])
+    p.prog.append(["bun", "r", ["eo", ent]])
+    k = rng.choice(["sel", "any", "bundle_op"])
+    if k == "sel":
+        p.prog.append(["sig", "t", ["p", ["b", "+", ["bs", ["v", "r"], item], ["n", 1]], p.types.fresh()]])
+        p.enable(p.place("small-lamp"), ["c", ">", ["v", "t"], ["n", rng.randint(0, 20)]])
+    elif k == "any":
+        p.enable(p.place("small-lamp"), [rng.choice(["any", "all"]), rng.choice(CMP_OPS), ["v", "r"], ["n", rng.randint(0, 20)]])
+    else:
+        p.prog.append(["bun", "d", ["bb", rng.choice(["*", "+"]), ["v", "r"], ["n", rng.randint(2, 5)]]])
+        p.enable(p.place("small-lamp"), ["any", ">", ["v", "d"], ["n", rng.randint(0, 40)]])
+    if rng.random() < 0.7:
+        p.prog.append(["sig", "u", ["p", ["b", "*", ["v", s], ["n", 2]], p.types.fresh()]])
+        p.enable(p.place("small-lamp"), ["c", rng.choice(CMP_OPS), ["v", "u"], ["n", rng.randint(-3, 10)]])
+    return _mk(p.prog, "entity_controlled_and_read", rng, nval, edges=p.edges, chests=True)
+
+
+STRATA = [(s_inline, 4), (s_noninline, 5), (s_condvalue, 3), (s_shared_cmp, 2), (s_fanout, 2), (s_bundle_cond, 2), (s_func_configured, 2), (s_chest, 4), (s_balanced_loader, 2), (s_controlled_and_read, 2)]
 
 
 def gen_cases(tier, seed):
@@ -240,7 +271,12 @@ def gen_cases(tier, seed):
 def chests_fn(case, vals, rng):
     if not case.get("chests"):
         return None
-    places = [s for s in case["prog"] if s[0] == "place" and s[2] in CHESTS]
+    import json
+
+    text = json.dumps(case["prog"])
+    # belts and inserters emit their contents only when the program reads them (`.output`)
+    places = [s for s in case["prog"] if s[0] == "place" and
+              (s[2] in CHESTS or (s[2] in READABLE and '["eo", "%s"]' % s[1] in text))]
     out = []
     for _ in vals:
         d = {}
